@@ -149,8 +149,25 @@ func (c *Ctl) read() {
 	}
 }
 
+// ArmPause parks the goroutine selected by filter before its i-th read (counted from now).
+func (c *Ctl) ArmPause(i int64, filter func() bool) {
+	c.mu.Lock()
+	c.pausedOnce = false
+	c.mu.Unlock()
+	atomic.StoreInt64(&c.reads, 0)
+	c.PauseFilter = filter
+	c.PauseAtRead = i
+}
+
+// DisarmPause switches the pause mechanism off.
+func (c *Ctl) DisarmPause() {
+	c.PauseAtRead = 0
+	c.PauseFilter = nil
+}
+
 // CountReadsOnly makes the filter count reads without ever pausing (dry run).
 func (c *Ctl) CountReadsOnly(filter func() bool) {
+	atomic.StoreInt64(&c.reads, 0)
 	c.PauseFilter = filter
 	c.PauseAtRead = 1 << 60
 }
